@@ -47,6 +47,8 @@ func getPublicIPUsingIPChecker(ctx context.Context, client *http.Client, backoff
 	}
 	ctxWithTimeout, cancel := context.WithTimeout(ctx, ipCheckerCallTimeout)
 	defer cancel()
+	// bind the request to the per-checker timeout, otherwise a provider that never answers blocks forever
+	req = req.WithContext(ctxWithTimeout)
 	result, err := backoff.Retry(ctxWithTimeout, operation, backoff.WithBackOff(backoffPolicy))
 	if err != nil {
 		return nil, errors.New("backoff retry error: " + err.Error())
